@@ -4,7 +4,7 @@ The command-line parsing.
 from __future__ import annotations
 
 import re
-from typing import Sequence, List, Optional, Type, Tuple, TYPE_CHECKING
+from typing import Sequence, List, Optional, TextIO, Type, Tuple, TYPE_CHECKING
 import sys
 import functools
 from pathlib import Path
@@ -43,13 +43,19 @@ PydoctorConfigParser = CompositeConfigParser(
 
 # ARGUMENTS PARSING
 
+def _open_config_file(path: str) -> TextIO:
+    # A TOML document is UTF-8 by definition, setuptools reads setup.cfg as UTF-8 as well:
+    # do not depend on the encoding of the locale.
+    return open(path, encoding='utf-8')
+
 def get_parser() -> ArgumentParser:
     parser = ArgumentParser(
         prog='pydoctor',
         description="API doc generator.",
         usage="pydoctor [options] SOURCEPATH...", 
         default_config_files=DEFAULT_CONFIG_FILES,
-        config_file_parser_class=PydoctorConfigParser)
+        config_file_parser_class=PydoctorConfigParser,
+        config_file_open_func=_open_config_file)
     
     # Add the validator to the config file parser, this is arguably a hack.
     parser._config_file_parser = ValidatorParser(parser._config_file_parser, parser)
